@@ -23,9 +23,9 @@ CHECKS = {
  "C12": ("Lean C12_closure and selectNodes_spec: the executable three-step selection (the function compared with make_subgraph on every run) equals the documented closure; differential runs over random graphs/selections/alias forms, returned values and execution counters.", "7", "proof of graph functions + differential testing"),
  "C13": ("Lean C13_flag_off_no_debug and C13_pulled_debug_has_inputs about the executable debug extension compared with the real executor graphs for both flag values; monitors on every selection; value equality on/off.", "7", "proof of graph functions + differential testing"),
  "C14": ("Lean C14_err_terminal / err_is_node_failure / no_dependent_of_failed over all runs (failing nodes adversarial); tie: trace acceptance with strict treatment of exceptions (an exception that is not a node failure is rejected), monitor on message, location and cause. Partial: message formatting checked, not proved.", "6", "invariant proof over scheduler LTS + trace acceptance"),
- "C01": ("Lean theorems VM.C01_core (schedule independence: every returning run of the scheduler LTS with values computes the sequential denotation, for every attribute assignment and max_concurrency) and tracer correctness: VM.C01_flat (flat fragment) and VM.C20_nested_inlining (modules with nested calls at any depth, defaults, argument stubs, unpack_to, flags on plain calls) — PARTIAL only in that a flag on a nested call is excluded (known findings). Tied by the four-way differential run (CPython oracle, real tawazi under random configurations / flavours / config reloads / scripted completion orders, Lean plain evaluation, Lean tracer+denotation) and a directed enumeration of argument-passing forms.", "7", "proof (core + flat fragment) + four-way differential testing"),
- "C10": ("Activation semantics are part of VM.C01_core / C01_flat (flag read through the full reference, deactivated node yields None, dependents released); tie: programs with every flag form on plain nodes and nested DAGs (directed enumeration of nested-call forms) against the CPython oracle and the Lean model. Two nested-DAG findings are recorded as known findings.", "7", "proof (flat fragment) + differential testing + directed enumeration"),
- "C20": ("Executable Lean model of nested calls by inlining with argument stubs (VM/Prog.lean: traceStmts / evalStmts) compared four ways on random and systematically enumerated nestings (signatures x argument supply x shapes x flags); Proved: VM.C20_nested_inlining (traceStmts_good by induction on nesting depth and statements, bindParamRefs_good for stubs/defaults): every returning execution resolves the return references to the plain components; PARTIAL: flags on nested calls excluded (the two known findings live there); the model inlines the callee's body whereas the code splices its table — that they agree is what the differential runs check.", "7", "proof by induction on nesting + differential testing"),
+ "C01": ("Lean theorems VM.C01_core (schedule independence: every returning run of the scheduler LTS with values computes the sequential denotation, for every attribute assignment and max_concurrency) and tracer correctness: VM.C01_flat (flat fragment) VM.C20_nested_inlining (modules with nested calls at any depth, defaults, argument stubs, unpack_to, flags on plain calls) and VM.C20_nested_inlining_flags (the same WITH activation flags on nested calls, for every module satisfying the decidable predicate FlagSafe = each flagged nested call targets a callee returning only whole results of its own nodes and using no unpack_to; the driver evaluates flagSafeB on every generated module) — PARTIAL only outside FlagSafe, where the code departs from inlining: the two known findings, proved as model theorems C20_flag_witness_default / C20_flag_witness_indexed and replayed on the code. Tied by the four-way differential run (CPython oracle, real tawazi under random configurations / flavours / config reloads / scripted completion orders, Lean plain evaluation, Lean tracer+denotation) and a directed enumeration of argument-passing forms.", "7", "proof (core + flat fragment) + four-way differential testing"),
+ "C10": ("Activation semantics are part of VM.C01_core / C01_flat (flag read through the full reference, deactivated node yields None, dependents released); tie: programs with every flag form on plain nodes and nested DAGs (directed enumeration of nested-call forms) against the CPython oracle and the Lean model. Flags on nested calls: VM.C20_nested_inlining_flags (falsy flag => every output None, arguments not evaluated; truthy => as unflagged) for FlagSafe modules; outside FlagSafe the two known findings (model witnesses C20_flag_witness_default / _indexed). A counterexample inside FlagSafe, or one the model does not mirror, is never matched to a known finding.", "7", "proof (flat fragment) + differential testing + directed enumeration"),
+ "C20": ("Executable Lean model of nested calls by inlining with argument stubs (VM/Prog.lean: traceStmts / evalStmts) compared four ways on random and systematically enumerated nestings (signatures x argument supply x shapes x flags); Proved: VM.C20_nested_inlining (traceStmts_good by induction on nesting depth and statements, bindParamRefs_good for stubs/defaults): every returning execution resolves the return references to the plain components; flags on nested calls: VM.C20_nested_inlining_flags for FlagSafe modules (traceStmts_goodF / traceStmts_dead: the imposed flag reaches every stub and node of the callee at any depth); PARTIAL only outside FlagSafe (the two known findings, with model witnesses); the model inlines the callee's body whereas the code splices its table — that they agree is what the differential runs check.", "7", "proof by induction on nesting + differential testing"),
  "C11": ("Lean theorem VM.C11_setup_at_most_once over arbitrary histories of successful operations, applyOp_res_keep (first value kept); tie: random operation histories (call / executor / setup / setup(target) / deepcopy, sync+async, under scripted completion orders) compared op by op with the Lean history model (entered sets, values).", "7", "induction over histories + differential testing"),
  "C15": ("Lean theorems runHistory_res_nonsetup / applyOp_res_nonsetup (an instance only ever gains setup results, failing operations included) so a call's outcome is a function of (table, setup results, own arguments); tie: histories with different argument tuples, failing calls, executors, compose, config reloads; executor re-runs after success and after failure must be refused or complete.", "7", "induction over histories + differential testing"),
  "C18": ("Lean theorem VM.C18_restart_same (a run seeded with cached values computes the same results and its execution graph excludes the cached nodes); tie: (caching run, restart) pairs over whole DAG / target nodes / cache_deps_of with execution counters and pickle key sets. Partial: pickle round-trip trusted.", "7", "proof over denotation + differential testing"),
